@@ -17,7 +17,7 @@ import (
 func init() {
 	core.Register(&core.Prop{
 		ID: "C19",
-		Rule: "case = one network of 2-60 (300 thorough) nodes on a jittered grid with positive, well separated coordinates (trees, grids with diagonals, two components, a long cheap detour against a short expensive chain, fast-far against slow-near) whose links are poly-lines with 0-4 bends and positive speeds over two decades, added in random order and orientation, for Distance or Time minimisation, queried at 8 point pairs (random and exactly on nodes); a second phase (thorough tier only: building one takes a minute) builds 32 jittered grids of 50 000-110 000 nodes, half of them in a lon/lat window with 1e-4 degree spacing; 40% of networks are built incrementally in 2-4 batches with 4 queries after each batch, judged against exactly the links added so far (later AddLink calls then create new nodes and link already-existing nodes on a network that has answered queries); oracle = the harness's own graph (nodes by exact end-point equality) with Dijkstra: start/end nodes are the true nearest nodes, the returned links form a chain between them, reported totals are the sums over the returned links, the chosen cost equals the Dijkstra optimum (1e-9), disconnected pairs give an empty route; " +
+		Rule: "case = one network of 2-60 (300 thorough) nodes on a jittered grid with positive, well separated coordinates (trees, grids with diagonals, almost regular lattices of straight equal-speed links with thousands of near-tied chains, two components, a long cheap detour against a short expensive chain, fast-far against slow-near) whose links are poly-lines with 0-4 bends and positive speeds over two decades, added in random order and orientation, for Distance or Time minimisation, queried at 8 point pairs (random and exactly on nodes); a second phase (thorough tier only: building one takes a minute) builds 32 jittered grids of 50 000-110 000 nodes, half of them in a lon/lat window with 1e-4 degree spacing; 40% of networks are built incrementally in 2-4 batches with 4 queries after each batch, judged against exactly the links added so far (later AddLink calls then create new nodes and link already-existing nodes on a network that has answered queries); oracle = the harness's own graph (nodes by exact end-point equality) with Dijkstra: start/end nodes are the true nearest nodes, the returned links form a chain between them, reported totals are the sums over the returned links, the chosen cost equals the Dijkstra optimum (1e-9), disconnected pairs give an empty route; " +
 			"an evaluation is one query judged; non-trivial = query whose optimal route has >= 2 links and differs in cost from the fewest-links route; distinct by (network hash, query)",
 		Assumptions: []string{"no self loops, no parallel links (as the property states)", "queries whose nearest node is ambiguous within 1e-9 relative are skipped"},
 		Phases: []core.Phase{{Name: "networks", NumCases: func(t string) int {
@@ -44,7 +44,7 @@ func init() {
 }
 
 func floorsC19() map[string]int64 {
-	return map[string]int64{"query.connected": 5000, "query.disconnected": 200, "query.same_node": 100, "query.optimal_differs_from_fewest_links": 200, "minimise.Distance": 300, "minimise.Time": 300, "topology.detour": 100, "topology.two_components": 100, "topology.grid": 100, "topology.tree": 100, "query.on_node": 1000, "order.fastest_first": 100, "order.incremental_queries_between_addlinks": 300, "incremental.link_between_existing_nodes_after_query": 300}
+	return map[string]int64{"query.connected": 5000, "query.disconnected": 200, "query.same_node": 100, "query.optimal_differs_from_fewest_links": 200, "minimise.Distance": 300, "minimise.Time": 300, "topology.detour": 100, "topology.two_components": 100, "topology.grid": 100, "topology.tree": 100, "topology.near_tie_lattice": 100, "query.on_node": 1000, "order.fastest_first": 100, "order.incremental_queries_between_addlinks": 300, "incremental.link_between_existing_nodes_after_query": 300}
 }
 
 type link struct {
@@ -145,7 +145,7 @@ func (n *netw) dijkstra(s, t int, w func(l *link) float64) float64 {
 
 func genNetwork(c *core.Ctx, r *gen.R) (*netw, string) {
 	n := &netw{adj: map[int][]int{}}
-	topo := []string{"grid", "grid", "tree", "two_components", "detour", "detour", "fastfar"}[r.Intn(7)]
+	topo := []string{"grid", "grid", "tree", "two_components", "detour", "detour", "fastfar", "near_tie_lattice"}[r.Intn(8)]
 	cell := math.Pow(10, r.Range(0, 4))
 	ox, oy := cell*r.Range(5, 50), cell*r.Range(5, 50) // positive coordinates
 	maxSide := 8
@@ -165,6 +165,41 @@ func genNetwork(c *core.Ctx, r *gen.R) (*netw, string) {
 		return ids
 	}
 	switch topo {
+	case "near_tie_lattice":
+		// an almost regular lattice of straight links at one speed: very many alternative chains
+		// whose costs differ by a relative 1e-6 .. 1e-3 (never exactly equal), and a straight-line
+		// estimate that is nearly tight - the situation in which a search that is only
+		// approximately admissible or that stops at the first arrival returns the second best
+		w, h := r.IntRange(3, 10), r.IntRange(3, 10)
+		jit := math.Pow(10, r.Range(-5, -2))
+		sp := speed()
+		var ids []int
+		for j := 0; j < h; j++ {
+			for i := 0; i < w; i++ {
+				n.nodes = append(n.nodes, geom.Point{X: ox + cell*(float64(i)+r.Range(-1, 1)*jit), Y: oy + cell*(float64(j)+r.Range(-1, 1)*jit)})
+				ids = append(ids, len(n.nodes)-1)
+			}
+		}
+		type pair struct{ a, b int }
+		var cand []pair
+		for j := 0; j < h; j++ {
+			for i := 0; i < w; i++ {
+				if i+1 < w {
+					cand = append(cand, pair{ids[j*w+i], ids[j*w+i+1]})
+				}
+				if j+1 < h {
+					cand = append(cand, pair{ids[j*w+i], ids[(j+1)*w+i]})
+				}
+				if i+1 < w && j+1 < h && r.Chance(0.5) {
+					cand = append(cand, pair{ids[j*w+i], ids[(j+1)*w+i+1]})
+				}
+			}
+		}
+		for _, k := range r.Perm(len(cand)) {
+			if r.Chance(0.95) {
+				n.addLink(r, cand[k].a, cand[k].b, sp, 0, 0)
+			}
+		}
 	case "grid", "two_components":
 		w, h := r.IntRange(2, maxSide), r.IntRange(1, maxSide)
 		ids := grid(w, h, ox, oy)
